@@ -209,6 +209,25 @@ func runC10(outDir string, seed int64, tier string) {
 				}
 				c = gc(":-", gh, body)
 			}
+			if r.coin(0.2) {
+				// double-quoted strings in the head (string-backed lists in the engine), called with the same
+				// list written in bracket notation, a prefix of it, and a different one
+				str := []string{"ab", "a", "abc", "ba"}[r.intn(4)]
+				other := []string{"ab", "b", "abd", "ba"}[r.intn(4)]
+				// (a predicate of its own: the d0/d1 clauses with variable goals would call the list)
+				c = gc("ds", gstr(str), gv(r.intn(4)))
+				if r.coin(0.4) {
+					c = gc(":-", c, gc("=", gv(r.intn(4)), gstr(other)))
+				}
+				es := gstr(str)
+				es.Q = false
+				probe := []*G{gc("ds", es, gv(6)), gc("ds", gc(".", ga(str[:1]), gv(5)), gv(6)), gc("ds", gstr(other), gv(6)), gc("ds", gv(5), gv(6))}[r.intn(4)]
+				bind = gc("=", gv(r.intn(4)), p.term(1))
+				items = append(items, bind, gc([]string{"assertz", "asserta"}[r.intn(2)], c),
+					gc("findall", gc("p", gv(5), gv(6)), probe, gv(10+len(items))),
+					gc("findall", gc("c", gv(4), gv(6), gv(5)), gc("clause", gc("ds", gv(4), gv(6)), gv(5)), gv(30+len(items))))
+				continue
+			}
 			items = append(items, bind, gc([]string{"assertz", "asserta"}[r.intn(2)], c))
 			if r.coin(0.4) { // a binding made after the clause was added must not show through
 				items = append(items, gc("=", gv(r.intn(4)), p.term(1)))
